@@ -90,4 +90,4 @@ class _DescriptionExtractor:
         return description.strip()
 
     def starts_with_description(self) -> bool:
-        return self.remaining_source[0] == defs.DESCRIPTION_DELIMITER
+        return self.remaining_source[:1] == defs.DESCRIPTION_DELIMITER
